@@ -315,7 +315,7 @@ func init() {
 		Doc: "in a function that multiplies the scale of an element X by a factor (X.Scale = X.Scale.Mul(..r..)), every in-place scalar multiplication of a component of X by that factor lies in a loop over X's own components (range X.Value, X.Degree()), never in a loop over another element's components",
 		Run: func(c *core.Ctx) []ob {
 			out := scanScaleAll(c)
-			for _, o := range core.Floor("SCALEALL", nil, "rescaled elements", c.Stats["scaleall_sites"], 3) {
+			for _, o := range core.Floor("SCALEALL", nil, "rescaled elements", c.Stats["scaleall_sites"], 1) {
 				out = append(out, withProps(o, "C05"))
 			}
 			for _, o := range control(c, "SCALEALL", scanScaleAll, "lvfixture.accumulateScaled") {
